@@ -15,9 +15,15 @@ CHECKS = {
  "C03": ("exploration", "exhaustive sweep of every collection size x index set x bulk operation x backend",
          "every size from 0 to the bound, so page-boundary effects cannot hide between sampled sizes; callback log and post-state compared with FindAll-before and the reference model",
          "sizes above the bound only at a few listed values"),
+ "C04": ("fault_enumeration", "exhaustive enumeration of every failing store call of every operation on the real stores + erroring transitions of the state-space search",
+         "for every operation, pre-state and backend, every position k of a failing begin/get/set/delete/cursor-read/commit: error reported, raw content unchanged, nothing leaked, re-run behaves as the model says",
+         "single faults per run; failures are injected by a store wrapper above the real adapters"),
  "C06": ("model_checking", "explicit-state BFS of the real DB to a fixpoint, raw key-space audit against a canonical rebuild",
          "all reachable states of three alphabets; in each the raw key set equals that of a database freshly built with the same logical content, Count equals the number of documents, every index answers like a scan",
          "states are raw store contents (DESIGN 3.5); layout-agnostic audit (DESIGN 3.5a)"),
+ "C08": ("exploration", "exhaustive sort-option x skip/limit grid on index twins of the real DB against the reference order",
+         "every sort list / direction / window / criteria combination of the grid: returned sort-key tuples equal the reference window",
+         "13-document dataset; tie order among equal keys is not compared"),
  "C09": ("model_checking", "explicit-state BFS of the real DB; relational oracle (the implementation's own FindAll)",
          "in every reachable state, for a battery of queries, Count/Exists/FindFirst/ForEach(every stop position)/FindById agree with FindAll and leave query objects and the database untouched",
          "query battery of 12 shapes"),
@@ -45,6 +51,12 @@ CHECKS = {
  "C17": ("exploration", "exhaustive index contents x ranges x directions x stop positions on the real stores",
          "every multiset of entries up to the bound, every range over 11 bounds with both flags, both directions, every stop position, on bbolt and badger; Intersect/IsEmpty for every pair of ranges",
          "open end = nil bound with flag off"),
+ "C19": ("exploration", "exhaustive small collections over a JSON grammar through ExportCollection/ImportCollection on the real DB",
+         "every collection of up to 2 (thorough: 3) documents of the grammar, with and without indexes; 16 failure modes",
+         "quick tier thins 3-document collections to every 7th"),
+ "C20": ("model_checking", "hostile exhaustive sweep of every public operation x situation x criteria shape, plus recover/leak checks on every transition of the state-space searches",
+         "no call panics or returns with a transaction/cursor open (what makes a later write block forever); closed handles included; 60 s watchdog per call",
+         "callbacks that call back into clover are outside the property"),
  "C18": ("exploration", "exhaustive typed Go-value grammar through Document.Set/NewDocumentOf against a reference normaliser",
          "every value of the typed grammar, every pair of dotted-path assignments, struct round trips",
          "[]uint8 pass-through is a recorded known finding"),
@@ -76,6 +88,9 @@ def main():
             {"name": "querysweep", "path": "eng/querysweep.go", "serves_properties": ["C01", "C02", "C08"], "kind_free_text": "exhaustive criteria x sort x window x index-twin sweep on the real DB"},
             {"name": "statespace", "path": "eng/statespace.go", "serves_properties": ["C01", "C06", "C09", "C12", "C13", "C14", "C15"], "kind_free_text": "explicit-state breadth-first search over the real DB with raw-state de-duplication and lock-step backend twins"},
             {"name": "bulksweep", "path": "eng/bulksweep.go", "serves_properties": ["C03"], "kind_free_text": "every collection size x index set x bulk op"},
+            {"name": "faultenum", "path": "eng/faultenum.go", "serves_properties": ["C04"], "kind_free_text": "every k-th store call failing, per operation x pre-state x backend"},
+            {"name": "hostile", "path": "eng/hostile.go", "serves_properties": ["C20"], "kind_free_text": "every public call x situation x hostile criteria"},
+            {"name": "jsonsweep", "path": "eng/jsonsweep.go", "serves_properties": ["C19"], "kind_free_text": "all small collections over a JSON grammar through export/import"},
             {"name": "valuesweep/critsweep/normsweep/roundtrip/rangesweep", "path": "eng/", "serves_properties": ["C10", "C11", "C15", "C16", "C17", "C18"], "kind_free_text": "plain exhaustive enumerations of bounded value/criteria/range/key-set spaces"},
         ],
         "checks": checks,
